@@ -81,9 +81,11 @@ def r06_1(ctx):
     # chain - the spelling does not matter): for every type, acceptance implies the form check of that type
     from .common import AcceptCondition
     ac = AcceptCondition(viv.node)
-    type_atoms = {t: f"self.orig_type == {t}" for t in ALL5}
-    if not all(a in ac.atoms for a in type_atoms.values()):
-        raise AnchorError(f"value_is_valid: type tests {sorted(set(type_atoms.values()) - set(ac.atoms))} not found (atoms: {ac.atoms})")
+    from .common import type_atom_truth
+    # the type tests, in whatever spelling (== / is / in a tuple or a set constant / implied by an else arm)
+    type_tests = [a for a in ac.atoms if type_atom_truth(repo, CORE, a, "INT") is not None]
+    if not type_tests:
+        raise AnchorError(f"value_is_valid: no type tests found (atoms: {ac.atoms})")
     need = {
         "BOOL": [["value in (2, 0)", "value in (0, 2)"]],
         "INT": [["type(value) is str", "isinstance(value, str)"], ["_is_base_n(value, 10)"]],
@@ -94,7 +96,7 @@ def r06_1(ctx):
     neg = {"int(value, 16) < 0"}
     for ty in sorted(ALL5):
         construct = f"Symbol.value_is_valid/{ty} clause"
-        fixed = {a: (t == ty) for t, a in type_atoms.items()}
+        fixed = {a: type_atom_truth(repo, CORE, a, ty) for a in type_tests}
         bad_v = None
         accepts_something = False
         for v in ac.valuations(fixed):
@@ -104,7 +106,7 @@ def r06_1(ctx):
             for alts in need[ty]:
                 present = [a for a in alts if a in v]
                 if not present or not any((v[a] if a not in neg else not v[a]) for a in present):
-                    bad_v = (alts, {k: val for k, val in v.items() if k not in type_atoms.values()})
+                    bad_v = (alts, {k: val for k, val in v.items() if k not in type_tests})
                     break
             if bad_v:
                 break
